@@ -139,6 +139,93 @@ fn one_case(sink: &mut Sink, name: &str, syn: &CommentSyntax, bytes: &[u8], r: &
     });
 }
 
+/// The same accounting as the user sees it: files with generated byte contents (a third of them
+/// not valid UTF-8) are scanned by the binary; `check` and `stats files` must list every file
+/// that carries no ignore-file directive, with the numbers the counter gives for its bytes, and a
+/// total equal to its physical lines.
+fn e2e_batch(sink: &mut Sink, r: &mut Rng, bin: &str, scratch: &str) {
+    if !sink.want() {
+        sink.skip();
+        return;
+    }
+    let dir = std::path::PathBuf::from(scratch).join(format!("e{}", sink.n));
+    let _ = std::fs::remove_dir_all(&dir);
+    std::fs::create_dir_all(dir.join("src")).unwrap();
+    let reg = sloc_guard::language::LanguageRegistry::default();
+    let langs: Vec<_> = reg.all().iter().filter(|l| !l.extensions.is_empty()).collect();
+    let mut exts: Vec<String> = vec![];
+    let mut expect: Vec<(String, Counted, usize, bool)> = vec![];
+    for k in 0..40 {
+        let lang = *r.pick(&langs);
+        let ext = lang.extensions[0].trim_start_matches('.').to_string();
+        if !exts.contains(&ext) {
+            exts.push(ext.clone());
+        }
+        let mut bytes = random_text(r, 24).into_bytes();
+        let spliced = k % 3 == 0;
+        if spliced {
+            for _ in 0..r.range(1, 3) {
+                let pos = r.below(bytes.len() + 1);
+                bytes.insert(pos, *r.pick(&[0xffu8, 0xc3, 0x80, 0xe9, 0xf0]));
+            }
+        }
+        let name = format!("src/f{k}.{ext}");
+        std::fs::write(dir.join(&name), &bytes).unwrap();
+        let text = String::from_utf8_lossy(&bytes).into_owned();
+        expect.push((name, count_bytes(&lang.comment_syntax, &bytes), line_ends(&text).len(), std::str::from_utf8(&bytes).is_ok()));
+    }
+    let cfg = format!("version = \"2\"\n[scanner]\ngitignore = false\n[content]\nmax_lines = 100000\nextensions = [{}]\n", exts.iter().map(|e| format!("\"{e}\"")).collect::<Vec<_>>().join(", "));
+    std::fs::write(dir.join(".sloc-guard.toml"), cfg).unwrap();
+    let run = |args: &[&str]| -> (i32, serde_json::Value, String) {
+        let o = std::process::Command::new(bin).args(args).current_dir(&dir).env("NO_COLOR", "1").output().expect("run sloc-guard");
+        (o.status.code().unwrap_or(-1), serde_json::from_slice(&o.stdout).unwrap_or(serde_json::Value::Null), String::from_utf8_lossy(&o.stderr).into_owned())
+    };
+    let (rc1, check, err1) = run(&["check", "--no-sloc-cache", "--format", "json", "."]);
+    let (rc2, stats, err2) = run(&["stats", "files", "--no-sloc-cache", "--format", "json", "."]);
+    let mut pred: Option<String> = None;
+    if rc1 != 0 || rc2 != 0 {
+        pred = Some(format!("check exits {rc1}, stats files exits {rc2}: {} {}", err1.lines().next().unwrap_or(""), err2.lines().next().unwrap_or("")));
+    }
+    let quad = |v: &serde_json::Value| -> Option<(usize, usize, usize, usize)> {
+        Some((v.get("total")?.as_u64()? as usize, v.get("code")?.as_u64()? as usize, v.get("comment")?.as_u64()? as usize, v.get("blank")?.as_u64()? as usize))
+    };
+    let find = |arr: Option<&Vec<serde_json::Value>>, name: &str| -> Option<serde_json::Value> {
+        arr?.iter().find(|x| x.get("path").and_then(|p| p.as_str()).is_some_and(|p| p.trim_start_matches("./") == name)).cloned()
+    };
+    let mut shapes = std::collections::BTreeSet::new();
+    for (name, counted, physical, valid) in &expect {
+        let in_check = find(check.get("results").and_then(|x| x.as_array()), name);
+        let in_stats = find(stats.get("top_files").and_then(|x| x.as_array()), name);
+        let what = if *valid { "" } else { " (not valid UTF-8)" };
+        match counted {
+            Counted::Stats(s) => {
+                shapes.insert(if *valid { "counted" } else { "counted-invalid-utf8" });
+                let want = (s.total, s.code, s.comment, s.blank);
+                let got_c = in_check.as_ref().and_then(|x| x.get("stats")).and_then(quad);
+                let got_s = in_stats.as_ref().and_then(quad);
+                if pred.is_none() && (got_c.is_none() || got_s.is_none()) {
+                    pred = Some(format!("{name}{what} is missing from {}: every physical line must land in a class", if got_c.is_none() { "`check`" } else { "`stats files`" }));
+                }
+                if pred.is_none() && (got_c != Some(want) || got_s != Some(want)) {
+                    pred = Some(format!("{name}{what}: counter gives {want:?}, `check` shows {got_c:?}, `stats files` shows {got_s:?}"));
+                }
+                if pred.is_none() && s.total != *physical {
+                    pred = Some(format!("{name}: total {} but {} physical lines", s.total, physical));
+                }
+            }
+            Counted::IgnoredFile => {
+                shapes.insert("ignore-file");
+                if pred.is_none() && (in_check.is_some() || in_stats.is_some()) {
+                    pred = Some(format!("{name} carries an ignore-file directive but is listed"));
+                }
+            }
+            _ => pred = pred.or(Some(format!("{name}: the counter panicked"))),
+        }
+    }
+    let _ = std::fs::remove_dir_all(&dir);
+    sink.push(Case { request: "noop".into(), implementation: "-".into(), pred: pred.map_or_else(|| "ok".to_string(), |p| format!("FAIL {p}")), tag: format!("e2e/{}", shapes.into_iter().collect::<Vec<_>>().join("+")) });
+}
+
 pub fn run(tier: Tier, seed: u64, out: &str) {
     let mut sink = Sink::create(out);
     let mut r = Rng::new(seed);
@@ -168,6 +255,13 @@ pub fn run(tier: Tier, seed: u64, out: &str) {
             bytes = long;
         }
         one_case(&mut sink, &name, &syn, &bytes, &mut r);
+    }
+    if let Ok(bin) = std::env::var("SGVERIF_BIN") {
+        let scratch = std::env::var("SGVERIF_SCRATCH").unwrap_or_else(|_| "/verif/.build/scratch/c03".to_string());
+        for _ in 0..tier.scale(4, 60) {
+            let mut rr = r.fork();
+            e2e_batch(&mut sink, &mut rr, &bin, &scratch);
+        }
     }
     sink.extra.insert("trivial_tag_prefixes".into(), serde_json::json!([]));
     sink.finish(out);
